@@ -486,3 +486,29 @@ Proof.
       rewrite Hi0 in Hj. unfold h0.
       intros Hn. apply (proj1 (I6_alt h) (I6_nlink IH)) in Hn. lia.
 Qed.
+
+Lemma unlink_children h p n c d :
+  c <> p -> children h c = [] ->
+  children (delete_node (remove_child h p n) c) d =
+  if Nat.eqb d p then arm n (children h p) else children h d.
+Proof.
+  intros Hcp Hleaf. rewrite delete_node_children, remove_child_children.
+  destruct (Nat.eqb_spec d c) as [->|]; auto.
+  destruct (Nat.eqb_spec c p); [congruence|]. now rewrite Hleaf.
+Qed.
+
+(* ---- steps of the file system value ----------------------------------------------------- *)
+Definition step_ok (s s' : fsys) : Prop :=
+  Inv_heap (f_heap s') /\ kinds_kept (f_heap s) (f_heap s') /\ f_vols s' = f_vols s.
+
+Lemma step_ok_refl s : Inv_heap (f_heap s) -> step_ok s s.
+Proof. intros H. split; auto. split; auto. apply kinds_kept_refl. Qed.
+
+Lemma step_ok_trans s1 s2 s3 : step_ok s1 s2 -> step_ok s2 s3 -> step_ok s1 s3.
+Proof.
+  intros (_ & K1 & V1) (I2 & K2 & V2). split; auto. split; [eapply kinds_kept_trans; eauto | congruence].
+Qed.
+
+Lemma step_ok_with_heap s h' :
+  Inv_heap h' /\ kinds_kept (f_heap s) h' -> step_ok s (with_heap s h').
+Proof. intros [H1 H2]. split; auto. Qed.
